@@ -849,13 +849,19 @@ fn gen_pipe(rng: &mut Rng, k: usize) -> String {
 /// `cfg_sx` with the two environment inputs of the model: the configuration file could not be read, and what the
 /// final flush of stdout returns (o | p | e)
 fn cfg_env_sx(mode: &str, par: bool, q: bool, config_err: bool, flush: &str) -> String {
-    let base = cfg_sx(mode, par, q, false, true, false, true, true);
+    cfg_env_stats_sx(mode, par, q, false, config_err, flush)
+}
+fn cfg_env_stats_sx(mode: &str, par: bool, q: bool, stats: bool, config_err: bool, flush: &str) -> String {
+    let base = cfg_sx(mode, par, q, stats, true, false, true, true);
     format!("{} {} {})", base.trim_end_matches(')'), config_err as u8, flush)
 }
-const MISC_KINDS: [&str; 18] = [
+const CLASS_TRAILER: &str = "summary-write-error-ignored";
+const MISC_KINDS: [&str; 23] = [
     "config-missing", "config-dir", "patfile-empty", "stdin-match", "stdin-nomatch", "stdin-dir", "full-std-small", "full-std-big",
     "full-count-small", "full-files-small", "full-files-big", "full-json-small", "full-nomatch", "full-quiet",
     "special-plain", "special-badregex", "special-full", "special-pipe",
+    // the --stats trailer / the --json summary as part of the output, and as the only output (no match, or --quiet)
+    "full-stats-small", "full-stats-nomatch", "full-json-nomatch", "full-stats-quiet", "full-count-stats-nomatch",
 ];
 /// the modes that do not search (`w=k` picks one)
 const SPECIALS: [&[&str]; 8] = [&["--help"], &["-h"], &["--version"], &["-V"], &["--type-list"], &["--pcre2-version"], &["--generate", "man"], &["--generate", "complete-zsh"]];
@@ -1015,8 +1021,16 @@ fn run_misc(case: &str, ctx: &mut Ctx, drv: &mut Driver, rep: &mut Report) {
                 "full-files-big" => (vec!["--files"], true),
                 "full-json-small" => (vec!["--json", "needle"], false),
                 "full-nomatch" => (vec!["nomatchatall"], false),
+                "full-stats-small" => (vec!["--stats", "needle"], false),
+                "full-stats-nomatch" => (vec!["--stats", "nomatchatall"], false),
+                "full-json-nomatch" => (vec!["--json", "nomatchatall"], false),
+                "full-stats-quiet" => (vec!["-q", "--stats", "needle"], false),
+                "full-count-stats-nomatch" => (vec!["-c", "--stats", "nomatchatall"], false),
                 _ => (vec!["-q", "needle"], false),
             };
+            // the summary is all there is to write
+            let trailer_only = matches!(kind.as_str(), "full-stats-nomatch" | "full-json-nomatch" | "full-stats-quiet" | "full-count-stats-nomatch");
+            let quiet = mode_args[0] == "-q";
             let root = if big { pipe_tree(ctx, if mode_args[0] == "--files" { "many" } else { "multi" }) } else { dir.clone() };
             let target = if big { "d" } else { "t" };
             let mk = || {
@@ -1038,13 +1052,32 @@ fn run_misc(case: &str, ctx: &mut Ctx, drv: &mut Driver, rep: &mut Report) {
             } else {
                 // (F37, fixed by f052aea: what is still buffered at the end is flushed explicitly; theorem C15_flush)
                 if out.exit() != 2 || out.stderr.is_empty() {
+                    // class — mechanism test: the summary (--stats trailer / --json summary) is the only thing rg writes,
+                    // it is written by print_stats, whose own write errors both drivers discard (`let _ =`): several
+                    // threads (the trailer is written and flushed there and then) or --line-buffered (nothing is left for
+                    // the final flush); and rg behaves exactly as if undisturbed
+                    let mech = trailer_only && (par || lb) && out.exit() == reference.exit() && out.stderr.is_empty();
+                    if trailer_only { rep.branch(&format!("class:{}:{}", CLASS_TRAILER, if mech { "attributed" } else { "mechanism-absent" })); }
                     problems.push((format!("{} bytes could not be written to stdout (No space left on device), yet exit {} stderr {}",
-                        reference.stdout.len(), out.exit(), show(&out.stderr[..out.stderr.len().min(160)])), ""));
+                        reference.stdout.len(), out.exit(), show(&out.stderr[..out.stderr.len().min(160)])), if mech { CLASS_TRAILER } else { "" }));
                 }
                 // the model at this point: small output on a single-writer path = every write is buffered and the final
                 // flush fails; several threads = every BufferWriter::print fails
                 let small_single = reference.stdout.len() < 8192 && !lb && (j == 1 || mode_args[0] == "--files");
-                let model = if small_single {
+                let sr = if quiet || !trailer_only { "m" } else { "n" };
+                let model = if trailer_only {
+                    // the summary is written after the loop: single-threaded and block buffered it is what the final flush
+                    // writes (flush = e); with several threads print_stats's and the flush's errors are discarded, so the
+                    // model's run is the undisturbed one. (single-threaded and line buffered: what is left for the final
+                    // flush depends on the line writer's state — not put to the model)
+                    if small_single {
+                        Some(drv.ask(&format!("c15.run {} ok (items (f 0 {} o) (f 1 {} o))", cfg_env_stats_sx("std", false, quiet, true, false, "e"), sr, sr)))
+                    } else if par {
+                        Some(drv.ask(&format!("c15.run {} ok (items (f 0 {} o) (f 1 {} o))", cfg_env_stats_sx("std", true, quiet, true, false, "o"), sr, sr)))
+                    } else {
+                        None
+                    }
+                } else if small_single {
                     let m = if mode_args[0] == "--files" { "files" } else { "std" };
                     Some(drv.ask(&format!("c15.run {} ok (items (f 0 m o) (f 1 m o))", cfg_env_sx(m, par, false, false, "e"))))
                 } else if par && !big && mode_args[0] != "--files" {
@@ -1053,8 +1086,9 @@ fn run_misc(case: &str, ctx: &mut Ctx, drv: &mut Driver, rep: &mut Report) {
                     None
                 };
                 if let Some(model) = model {
-                    rep.branch(if small_single { "misc:full:model-final-flush" } else { "misc:full:model-buffer-writes" });
-                    if parse_reply(&model).map_or(true, |(e, _, d)| e != out.exit() || d.is_empty()) {
+                    rep.branch(if small_single { "misc:full:model-final-flush" } else if trailer_only { "misc:full:model-summary-only-parallel" } else { "misc:full:model-buffer-writes" });
+                    let silent_ok = trailer_only && !small_single; // the model mirrors the discarded error
+                    if parse_reply(&model).map_or(true, |(e, _, d)| e != out.exit() || (d.is_empty() && !silent_ok)) {
                         mproblems.push(format!("rg exit {} / model {}", out.exit(), model));
                     }
                 }
@@ -1099,7 +1133,7 @@ fn main() {
          with privileges dropped, dangling symlinks with and without -L, explicit missing / dangling paths, files removed or \
          truncated by a --pre script between listing and opening) x modes standard/-c/-l/--json/--passthru/--files x -j1/-j4 x \
          --quiet/--sort/--stats/--no-messages/implicit path/-m0; bad: 16 kinds of invalid arguments, the flag-parser ones also combined with -h/--help/-V/--version (before and after) and other valid flags; misc: the modes that do not search (--help/-h/--version/-V/--type-list/--pcre2-version/--generate: plain, with an invalid pattern and a missing path, into /dev/full, into a closed pipe), an unreadable configuration file, an empty pattern file, stdin as one of the inputs (matching, not matching, unreadable), \
-         stdout on /dev/full (small and large outputs, standard/-c/--json/--files/-q/no match, line buffered or not); pipe: stdout closed after k \
+         stdout on /dev/full (small and large outputs, standard/-c/--json/--files/-q/no match, with the --stats trailer / the --json summary as part of the output and as the only output (no match, --quiet), line buffered or not); pipe: stdout closed after k \
          bytes (k sampled; every k <= 200 in thorough) on outputs larger than the pipe, -j1/-j4, block/line buffered, with and \
          without a reported fault, with and without --pre. Non-trivial: a fault together with at least one healthy result and \
          >= 2 entries; every invalid-argument case; a pipe case in which rg must run into EPIPE. Distinct by case text. \
